@@ -431,6 +431,11 @@ def r19_1_stat(ctx, m):
     f = m.f
     test = m.sec_if.test
     rec = m.rec
+    # stat reads the records, it does not edit them: a column stored into before the filter changes what the filter sees
+    for st_ in walk_own(f.node):
+        tg_ = st_.targets[0] if isinstance(st_, ast.Assign) and len(st_.targets) == 1 else (st_.target if isinstance(st_, ast.AugAssign) else None)
+        if isinstance(tg_, ast.Attribute) and norm(tg_.value) == rec and tg_.attr in ("mapping_quality", "is_primary") and any(x_ is st_ for x_ in ast.walk(m.loop)) and f.before(st_, m.sec_if):
+            ctx.violated("R19.1", f.where(st_), f"`{norm(st_)[:60]}` changes the record's {tg_.attr} before the secondary filter reads it: records with the replaced value (mapping quality 255 = 'not available' set to 0) change sides of the filter and drop out of primary, reads and aligned bases", key_of(f, f"record-edited-before-filter:{tg_.attr}"))
 
     def atom_of(e):
         s = norm(e)
@@ -773,7 +778,17 @@ def r19_5(ctx, m):
             if not ok_range:
                 return
         elif fn == "zip" and len(args) == 2 and isinstance(n.target, ast.Tuple) and len(n.target.elts) == 2:
-            a0, a1 = norm(args[0]), norm(args[1])
+            def _sl(e_):
+                # a name bound once to the expression; itertools.islice(x, k, None, 2) is x[k::2]
+                if isinstance(e_, ast.Name):
+                    ds_ = [a_.value for a_ in walk_own(f.node) if isinstance(a_, ast.Assign) and len(a_.targets) == 1 and norm(a_.targets[0]) == e_.id]
+                    if len(ds_) == 1:
+                        e_ = ds_[0]
+                if isinstance(e_, ast.Call) and norm(e_.func) in ("itertools.islice", "islice") and len(e_.args) == 4 and isinstance(e_.args[0], ast.Name) and const_value(e_.args[1], None) in (0, 1) and isinstance(e_.args[2], ast.Constant) and e_.args[2].value is None and const_value(e_.args[3], None) == 2:
+                    return f"{e_.args[0].id}[{const_value(e_.args[1])}::2]"
+                return norm(e_)
+
+            a0, a1 = _sl(args[0]), _sl(args[1])
             mm0 = re.fullmatch(r"(\w+)\[(?:0)?::2\]", a0)
             mm1 = re.fullmatch(r"(\w+)\[1::2\]", a1)
             ok_zip = bool(mm0 and mm1 and mm0.group(1) == mm1.group(1))
@@ -943,6 +958,12 @@ def r19_7(ctx, m):
                     # an empty CIGAR has no runs: skipping the loop for it counts nothing less
                     if isinstance(t_, ast.Compare) and len(t_.ops) == 1 and isinstance(t_.ops[0], ast.Eq) and const_value(t_.comparators[0], None) == "" and pol_ and ("cigar" in norm(t_.left)):
                         wants = False
+                    # fewer than two pieces: there is no (length, operation) pair, the loop would not run once
+                    if isinstance(t_, ast.Compare) and len(t_.ops) == 1 and isinstance(t_.left, ast.Call) and norm(t_.left.func) == "len" and t_.left.args and norm(t_.left.args[0]) in norm(rl.iter) and isinstance(const_value(t_.comparators[0], None), int):
+                        k_ = const_value(t_.comparators[0])
+                        small = (isinstance(t_.ops[0], ast.Lt) and k_ <= 2 and pol_) or (isinstance(t_.ops[0], ast.LtE) and k_ <= 1 and pol_) or (isinstance(t_.ops[0], ast.Eq) and k_ in (0, 1) and pol_) or (isinstance(t_.ops[0], ast.GtE) and k_ <= 2 and not pol_) or (isinstance(t_.ops[0], ast.Gt) and k_ <= 1 and not pol_)
+                        if small:
+                            wants = False
             if not wants:
                 continue
             if not any(e.kind == "loop" and e.node is rl for e in p.events):
